@@ -18,6 +18,7 @@ type Env struct {
 	cur   *State // S' and plain Go paths
 	old   *State // S and (old ...)
 	where string // for error messages
+	wfTrue bool  // evaluate (wf ...) instances as true (they are assumed ORM facts, not proof goals)
 }
 
 func (e *Env) errf(format string, a ...interface{}) {
@@ -74,8 +75,8 @@ func (e *Env) term(x *Sx) string {
 	h := x.Head()
 	if h == "" {
 		// ((as const ...) v) and similar: pass through with evaluated args
-		parts := []string{x.List[0].String()}
-		for _, a := range x.List[1:] {
+		var parts []string
+		for _, a := range x.List {
 			parts = append(parts, e.term(a))
 		}
 		return "(" + strings.Join(parts, " ") + ")"
@@ -287,6 +288,9 @@ func (e *Env) term(x *Sx) string {
 		if t == nil {
 			e.errf("wf: unknown table %s", x.List[1])
 		}
+		if e.wfTrue {
+			return "true"
+		}
 		st := e.stateOf(x.List[2])
 		var ks []string
 		for _, k := range x.List[3:] {
@@ -434,8 +438,12 @@ func (e *Env) pathVal(p string) Val {
 		if p[i] == '.' {
 			i++
 			fname := readIdent()
-			// auto-deref pointers
+			// auto-deref pointers; interface values made from a concrete value denote that value
 			for {
+				if iv, ok := v.(Iface); ok && iv.Dyn != nil {
+					v, t = iv.V, iv.Dyn
+					continue
+				}
 				if pt, ok := v.(Ptr); ok {
 					if t != nil {
 						t = t.Underlying().(*types.Pointer).Elem()
